@@ -101,10 +101,11 @@ class Blockwise(ArrayExpr):
             # For each dimension, use the input chunking that has the most blocks;
             # this will ensure that broadcasting works as expected, and in
             # particular the number of blocks should be correct if the inputs are
-            # consistent.
+            # consistent.  A length-1 axis broadcasts against any other single
+            # block, so it never wins a tie.
             for arg, ind in arginds:
                 for c, i in zip(arg.chunks, ind):
-                    if i not in chunkss or len(c) > len(chunkss[i]):
+                    if i not in chunkss or len(c) > len(chunkss[i]) or chunkss[i] == (1,):
                         chunkss[i] = c
 
         for k, v in self.new_axes.items():
